@@ -320,4 +320,26 @@ theorem needResampleTV_const (order : Nat) (step : Rat) (n k : Nat) (hk : k ≤ 
     rw [e]
     omega
 
+/-! ### `attack(a, d, <iterable sustain>)` -/
+
+theorem hasNeed_attackS {α : Type} (n : Nat) (line : α → Nat → α) :
+    HasNeed (attackS n line) (needAttack n) := by
+  intro xs k hk
+  cases k with
+  | zero => exact needFrom_zero _ _ _
+  | succ k =>
+    simp only [needAttack, Nat.succ_ne_zero, if_false] at hk ⊢
+    cases xs with
+    | nil => simp at hk
+    | cons x xs =>
+      unfold need
+      show (attackS n line).needFrom true (k + 1 - 0) (x :: xs) = _
+      rw [Nat.sub_zero, needFrom]
+      show Option.map _ ((attackS n line).needFrom false
+        (k + 1 - ((List.range n).map (line x)).length) xs) = _
+      rw [List.length_map, List.length_range]
+      rw [needFrom_unit (attackS n line) (fun s => s = false)
+        (fun s y hs => by subst hs; exact ⟨rfl, rfl⟩) xs false _ rfl (by simp at hk; omega)]
+      simp; omega
+
 end ALV.C02
